@@ -8,7 +8,8 @@
 From Coq Require Import List NArith Bool String.
 From Coq.Strings Require Import Byte.
 From GM Require Import Codec.Packet Topic.MatchSpec Broker.Backend Broker.BackendSpec
-  Broker.BackendProofs Broker.BackendProofsPublish Broker.BackendProofsSteps Broker.BackendProofsHist.
+  Broker.BackendProofs Broker.BackendProofsPublish Broker.BackendProofsSteps Broker.BackendProofsHist
+  Broker.BackendReadings Broker.BackendLog.
 Import ListNotations.
 Open Scope N_scope.
 
@@ -43,6 +44,45 @@ Theorem C06_unsub : forall cap ops, holds_along unsub_ok cap ops.
 Proof. exact unsub_along. Qed.
 Print Assumptions C06_unsub.
 
+(* the same two clauses as propositions, for one observed step *)
+Theorem C06_targets_reading : forall st c m got st' k s,
+  targets_ok st (OPublish c m got) ROk st' = true -> name_ok (m_topic m) = true ->
+  In (k, s) (sessions st) ->
+  exists s', get_session st' k = Some s' /\
+    s_subs s' = s_subs s /\ s_act s' = s_act s /\ other_queue m s' = other_queue m s /\
+    ((exists f q, In (f, q) (s_subs s) /\ topic_matches f (m_topic m) = true) ->
+       is_full (st_cap st) (queue_of m s) = false -> queue_of m s' = queue_of m s ++ [copy m]) /\
+    ((forall f q, In (f, q) (s_subs s) -> topic_matches f (m_topic m) = false) -> queue_of m s' = queue_of m s) /\
+    (queue_of m s' = queue_of m s \/ queue_of m s' = queue_of m s ++ [copy m]).
+Proof. exact targets_reading. Qed.
+Print Assumptions C06_targets_reading.
+
+Theorem C06_qos_reading : forall st c temp m' st',
+  qos_ok st (ODequeue c temp) (RMsg m') st' = true ->
+  exists k s m rest, session_of st c = Some (k, s) /\ (if temp then s_tq s else s_sq s) = m :: rest /\
+    m_topic m' = m_topic m /\ m_payload m' = m_payload m /\ m_retain m' = m_retain m /\
+    (name_ok (m_topic m) = true ->
+       (exists f q, In (f, q) (s_subs s) /\ topic_matches f (m_topic m) = true /\ m_qos m' = N.min (m_qos m) q) \/
+       ((forall f q, In (f, q) (s_subs s) -> topic_matches f (m_topic m) = false) /\ m_qos m' = m_qos m)).
+Proof. exact qos_reading. Qed.
+Print Assumptions C06_qos_reading.
+
+(* Delivery log.  `expected k temp steps []` (Broker/BackendLog.v) replays, for queue `temp` of session k, what
+   the specification says each observed step does to it: a Publish appends one copy iff the session holds a
+   matching filter at that moment and the queue has room (offline/closing receivers: dropped when full; a call
+   cut short by ErrQueueFull: the sessions it reached), a Subscribe appends the retained replay, a Dequeue by the
+   holder removes the front element, resuming a stored session resets its temporary queue, a session that is
+   deleted or created starts empty.  After every history each existing queue holds exactly that:
+   dequeued ++ queued = enqueued, in publish order. *)
+Theorem C06_delivery_log : forall cap ops k temp,
+  names_ok ops = true ->
+  match get_session (run_state (init cap) ops) k with
+  | Some s => queue temp s = expected k temp (trace (init cap) ops) []
+  | None => True
+  end.
+Proof. exact delivery_log. Qed.
+Print Assumptions C06_delivery_log.
+
 (* lookupSubscription (Tree.MatchFirst as coded: the last report of the walk wins) finds a
    subscription iff the session holds a matching filter, and what it finds matches *)
 Theorem C06_match_first : forall subs t,
@@ -61,3 +101,13 @@ Example C06_nonvacuous :
      OSetup 2 [] true; OPublish 2 (Msg (b "a/b") (b "p") 2 true) []; ODequeue 1 false; ODequeue 1 false])
   = [RSetup false; ROk; RSetup false; ROk; RMsg (Msg (b "a/b") (b "p") 0 false); REmpty].
 Proof. vm_compute; reflexivity. Qed.
+
+(* non-vacuity of the delivery log: two matching QoS>=1 publishes, one dequeue, one non-matching publish *)
+Example C06_delivery_log_nonvacuous :
+  let ops := [OSetup 1 (b "x") false; OSubscribe 1 [(b "a/#", 1)] [[]]; OSetup 2 [] true;
+              OPublish 2 (Msg (b "a/b") (b "p1") 1 true) []; OPublish 2 (Msg (b "a/b") (b "p2") 2 false) [];
+              ODequeue 1 false; OPublish 2 (Msg (b "b") (b "p3") 1 false) []] in
+  names_ok ops = true /\
+  expected (KStored (b "x")) false (trace (init 3) ops) [] = [Msg (b "a/b") (b "p2") 2 false] /\
+  option_map s_sq (get_session (run_state (init 3) ops) (KStored (b "x"))) = Some [Msg (b "a/b") (b "p2") 2 false].
+Proof. vm_compute; repeat split; reflexivity. Qed.
